@@ -169,8 +169,20 @@ func c05(c *Ctx) {
 		ok := false
 		for _, g := range WithAnon(rc)[1:] {
 			for _, cl := range callsTo(g, "(*internal/pool.DatagramBufferPool).Put") {
-				if valueName(cl.Common().Args[1]) == "retBuf" {
-					ok = true
+				// the buffer put back is this datagram's slot: slots[i] read in the iteration that reads messages[i]
+				v := ptrOrigin(cl.Common().Args[1])
+				ld, isLd := v.(*ssa.UnOp)
+				if !isLd || ld.Op != token.MUL {
+					continue
+				}
+				ia, isIA := ld.X.(*ssa.IndexAddr)
+				if !isIA || !strings.HasSuffix(ia.X.Type().String(), "[]*[][]byte") {
+					continue
+				}
+				for _, in := range ia.Block().Instrs {
+					if ia2, isIA2 := in.(*ssa.IndexAddr); isIA2 && ia2 != ia && ia2.Index == ia.Index && strings.Contains(ia2.X.Type().String(), "Message") {
+						ok = true
+					}
 				}
 			}
 		}
@@ -217,12 +229,41 @@ func c05(c *Ctx) {
 			return false, false
 		}
 		// increments of the named counters
+		// the counters are identified by the result they are returned as (events: #1, bad lines: #2)
 		incs := map[string][]*ssa.BinOp{}
+		flowsTo := func(from ssa.Value, idx int) bool {
+			seen := map[ssa.Value]bool{}
+			work := []ssa.Value{from}
+			for len(work) > 0 {
+				v := work[len(work)-1]
+				work = work[:len(work)-1]
+				if seen[v] {
+					continue
+				}
+				seen[v] = true
+				for _, ref := range referrers(v) {
+					switch x := ref.(type) {
+					case *ssa.Phi:
+						work = append(work, x)
+					case *ssa.Return:
+						if idx < len(x.Results) && x.Results[idx] == v {
+							return true
+						}
+					}
+				}
+			}
+			return false
+		}
 		eachInstr(hd, func(in ssa.Instruction) {
 			if b, ok := in.(*ssa.BinOp); ok && b.Op == token.ADD {
-				if ph, ok := b.X.(*ssa.Phi); ok {
+				if _, ok := b.X.(*ssa.Phi); ok {
 					if one, isC := constInt(b.Y); isC && one == 1 {
-						incs[ph.Comment] = append(incs[ph.Comment], b)
+						if flowsTo(b, 1) {
+							incs["numEvents"] = append(incs["numEvents"], b)
+						}
+						if flowsTo(b, 2) {
+							incs["numBad"] = append(incs["numBad"], b)
+						}
 					}
 				}
 			}
@@ -425,16 +466,30 @@ func c05(c *Ctx) {
 		}
 		hc := hcs[0].(*ssa.Call)
 		// which result of handleDatagram is which counter
-		resIdx := map[string]int{}
-		eachInstr(hd, func(in ssa.Instruction) {
-			if ret, ok := in.(*ssa.Return); ok {
-				for i, v := range ret.Results {
-					if ph, ok := v.(*ssa.Phi); ok {
-						resIdx[ph.Comment] = i
+		// (C05.R3 establishes that result #1 counts the dispatched events and result #2 the rejected lines)
+		resIdx := map[string]int{"metrics": 0, "numEvents": 1, "numBad": 2}
+		dependsOn := func(v ssa.Value, pred func(ssa.Value) bool) bool {
+			seen := map[ssa.Value]bool{}
+			var walk func(v ssa.Value, d int) bool
+			walk = func(v ssa.Value, d int) bool {
+				if v == nil || seen[v] || d > 30 {
+					return false
+				}
+				seen[v] = true
+				if pred(v) {
+					return true
+				}
+				if in, ok := v.(ssa.Instruction); ok {
+					for _, op := range in.Operands(nil) {
+						if *op != nil && walk(*op, d+1) {
+							return true
+						}
 					}
 				}
+				return false
 			}
-		})
+			return walk(v, 0)
+		}
 		pd := newPostDom(run)
 		want := map[string]string{"eventsReceived": "numEvents", "Cur": "numBad", "metricsReceived": "metrics"}
 		seen := map[string]int{}
@@ -454,7 +509,10 @@ func c05(c *Ctx) {
 				okLen := false
 				if cv, ok := v.(*ssa.Convert); ok {
 					if lc, ok := cv.X.(*ssa.Call); ok && isCall(lc, "builtin len") {
-						if ph, ok := lc.Call.Args[0].(*ssa.Phi); ok && ph.Comment == "metrics" {
+						if dependsOn(lc.Call.Args[0], func(x ssa.Value) bool {
+							ex, ok := x.(*ssa.Extract)
+							return ok && ex.Tuple == ssa.Value(hc) && ex.Index == resIdx["metrics"]
+						}) {
 							okLen = true
 						}
 					}
